@@ -383,35 +383,10 @@ Proof.
   rewrite A, B, C, D, E, F, G, H. unfold deliver_update. destruct (cl_status cl) eqn:Es; cbn; rewrite ?Es; auto 10.
 Qed.
 
-Lemma last_snoc {A} (l : list A) a d : last (l ++ [a]) d = a.
-Proof. induction l as [|b t IH]; [reflexivity|]. cbn [app]. destruct (t ++ [a]) eqn:E; [destruct t; discriminate|]. exact IH. Qed.
-
-Lemma last_app_ne {A} (l1 l2 : list A) d : l2 <> [] -> last (l1 ++ l2) d = last l2 d.
-Proof.
-  intros Hne. induction l1 as [|b t IH]; [reflexivity|]. cbn [app]. destruct (t ++ l2) eqn:E.
-  - destruct t; [cbn in E; congruence|discriminate].
-  - exact IH.
-Qed.
-
-Lemma last_map {A B} (f : A -> B) l d : l <> [] -> forall d', last (map f l) d' = f (last l d).
-Proof.
-  intros Hne d'. induction l as [|a t IH]; [congruence|]. destruct t as [|b t']; [reflexivity|].
-  cbn [map last] in *. apply IH. discriminate.
-Qed.
-
-Lemma app_snoc_split {A} (p q l : list A) u : p ++ q = l ++ [u] ->
-  (q = [] /\ p = l ++ [u]) \/ exists q', q = q' ++ [u] /\ l = p ++ q'.
-Proof.
-  intros H. induction q as [|x q' _] using rev_ind.
-  - left. rewrite app_nil_r in H. auto.
-  - right. rewrite app_assoc in H. apply app_inj_tail in H. destruct H as [H1 ->]. exists q'. auto.
-Qed.
-
 (* ================================================================== *)
 (* 3. the invariant of a whole-system run                             *)
 (* ================================================================== *)
 
-Definition dflt_upd : update_msg := mkUpd 0 [] [] [] [].
 
 Section E2E.
   Variables (cfg0 : cfg) (nclients : N).
@@ -991,3 +966,126 @@ Section E2E.
     rewrite Hi, Hl in G. exact G.
   Qed.
 End E2E.
+
+(* ================================================================== *)
+(* 5. the ghost is the ghost of the server-only run (`grun`) of the   *)
+(*    projected script                                                *)
+(* ================================================================== *)
+
+Definition pre_ids (c : client) : list N :=
+  fold_right (fun kv acc => match ce_pre (snd kv) with Some p => p :: acc | None => acc end) [] (cl_ents c).
+
+(* the server-level operations a step performs *)
+Definition proj_step (y : sys) (st : step) : list gop :=
+  match st with
+  | StStart => [GStart]
+  | StStop => [GStop]
+  | StConnect slot max =>
+    match find_client (y_server y) slot, al_get slot (y_clients y) with
+    | None, Some _ => if sv_running (y_server y) then [GConnect slot max] else []
+    | _, _ => []
+    end
+  | StAuthorize slot => [GAuthorize slot]
+  | StDisconnect slot => []
+  | StSFrame tick dt cleanup ops parts => [GFrame tick dt cleanup ops parts]
+  | StCFrame slot ops =>
+    match al_get slot (y_clients y) with
+    | Some cl => match client_frame cl ops with Ok (cl', _) => [GPublish slot (pre_ids cl')] | _ => [] end
+    | None => []
+    end
+  | StDeliver slot false ch w =>
+    match al_get slot (y_clients y) with
+    | Some _ => if ch =? 0 then map (GAcks slot) (fst (take w (l_ack (get_link y slot)))) else []
+    | None => []
+    end
+  | _ => []
+  end.
+
+Fixpoint proj_script (y : sys) (script : list step) : list gop :=
+  match script with
+  | [] => []
+  | st :: rest => proj_step y st ++ match sys_step y st with Ok (y', _) => proj_script y' rest | _ => [] end
+  end.
+
+Lemma grun_app c l1 : forall g l2, grun c g (l1 ++ l2) = let* g1 := grun c g l1 in grun c g1 l2.
+Proof.
+  induction l1 as [|o t IH]; intros g l2; cbn [app grun bind]; [reflexivity|].
+  destruct (gstep c g o) as [g1| |]; cbn [bind]; [apply IH|reflexivity|reflexivity].
+Qed.
+
+Lemma grun_acks c slot picked : forall s gs,
+  grun c (mkG s gs) (map (GAcks slot) picked) = Ok (mkG (fold_left (fun s idxs => deliver_acks s slot idxs) picked s) gs).
+Proof. induction picked as [|i t IH]; intros s gs; cbn [map grun fold_left gstep bind g_srv g_sent]; [reflexivity|apply IH]. Qed.
+
+Lemma sys_step_cfg y st y' o : sys_step y st = Ok (y', o) -> y_cfg y' = y_cfg y.
+Proof.
+  intros H. destruct st as [| |slot max|slot|slot|tick dt cleanup ops parts|slot ops|slot s2c ch w|slot s2c ch w]; cbn [sys_step] in H.
+  - inversion H; reflexivity.
+  - inversion H; reflexivity.
+  - destruct (find_client (y_server y) slot); [inversion H; reflexivity|]. destruct (al_get slot (y_clients y)); [|inversion H; reflexivity].
+    destruct (sv_running (y_server y)); inversion H; reflexivity.
+  - inversion H; reflexivity.
+  - destruct (al_get slot (y_clients y)); inversion H; reflexivity.
+  - destruct (server_frame (y_cfg y) (y_server y) tick dt cleanup ops parts) as [[s' fo]| |]; cbn [bind] in H; try discriminate.
+    inversion H; subst. exact (proj1 (enqueue_fields _ _)).
+  - destruct (al_get slot (y_clients y)) as [cl|] eqn:Ec; [|inversion H; reflexivity].
+    destruct (client_frame cl ops) as [[cl' cfo]| |] eqn:Ef; cbn [bind] in H; try discriminate.
+    assert (H' : sys_step y (StCFrame slot ops) = Ok (y', o)) by (cbn [sys_step]; rewrite Ec, Ef; exact H).
+    exact (proj1 (cframe_sys y slot ops cl cl' cfo y' o Ec Ef H')).
+  - destruct (al_get slot (y_clients y)); [|inversion H; reflexivity]. destruct s2c.
+    + destruct (ch =? 0); [destruct (take w (l_upd (get_link y slot))); inversion H; reflexivity|].
+      destruct (ch =? 1); [destruct (take w (l_mut (get_link y slot))); inversion H; reflexivity|inversion H; reflexivity].
+    + destruct (ch =? 0); [destruct (take w (l_ack (get_link y slot))); inversion H; reflexivity|inversion H; reflexivity].
+  - destruct (al_get slot (y_clients y)); [|inversion H; reflexivity]. destruct s2c.
+    + destruct (ch =? 0); [destruct (take w (l_upd (get_link y slot))); inversion H; reflexivity|].
+      destruct (ch =? 1); [destruct (take w (l_mut (get_link y slot))); inversion H; reflexivity|inversion H; reflexivity].
+    + destruct (ch =? 0); [destruct (take w (l_ack (get_link y slot))); inversion H; reflexivity|inversion H; reflexivity].
+Qed.
+
+(* one step: the server and the ghost after the step are those `grun` computes *)
+Lemma step_grun y gs st y' o : single_session_step st = true -> sys_step y st = Ok (y', o) ->
+  grun (y_cfg y) (mkG (y_server y) gs) (proj_step y st) = Ok (mkG (y_server y') (ghost_step y gs st)).
+Proof.
+  intros Hss H. destruct st as [| |slot max|slot|slot|tick dt cleanup ops parts|slot ops|slot s2c ch w|slot s2c ch w];
+    try discriminate; cbn [sys_step proj_step ghost_step] in *.
+  - inversion H; subst. reflexivity.
+  - destruct (find_client (y_server y) slot); [inversion H; subst; reflexivity|].
+    destruct (al_get slot (y_clients y)); [|inversion H; subst; reflexivity].
+    destruct (sv_running (y_server y)); inversion H; subst; reflexivity.
+  - inversion H; subst. reflexivity.
+  - destruct (server_frame (y_cfg y) (y_server y) tick dt cleanup ops parts) as [[s' fo]| |] eqn:Ef; cbn [bind] in H; try discriminate.
+    inversion H; subst. cbn [grun gstep g_srv g_sent]. rewrite Ef. cbn [bind]. rewrite (proj1 (proj2 (enqueue_fields _ _))). reflexivity.
+  - destruct (al_get slot (y_clients y)) as [cl|] eqn:Ec; [|inversion H; subst; reflexivity].
+    destruct (client_frame cl ops) as [[cl' cfo]| |] eqn:Ef; cbn [bind] in H; try discriminate.
+    inversion H; subst y' o. cbn [grun gstep bind g_srv g_sent]. unfold pre_ids.
+    destruct (cfo_acks cfo) as [|a acks]; [reflexivity|]. destruct (cl_status cl'); reflexivity.
+  - destruct s2c.
+    + destruct (al_get slot (y_clients y)); [|inversion H; subst; reflexivity].
+      destruct (ch =? 0); [destruct (take w (l_upd (get_link y slot))); inversion H; subst; reflexivity|].
+      destruct (ch =? 1); [destruct (take w (l_mut (get_link y slot))); inversion H; subst; reflexivity|inversion H; subst; reflexivity].
+    + destruct (al_get slot (y_clients y)); [|inversion H; subst; reflexivity].
+      destruct (ch =? 0); [|inversion H; subst; reflexivity].
+      destruct (take w (l_ack (get_link y slot))) as [picked rest]. inversion H; subst. cbn [fst]. rewrite grun_acks. reflexivity.
+  - destruct (al_get slot (y_clients y)); [|inversion H; subst; reflexivity]. destruct s2c.
+    + destruct (ch =? 0); [destruct (take w (l_upd (get_link y slot))); inversion H; subst; reflexivity|].
+      destruct (ch =? 1); [destruct (take w (l_mut (get_link y slot))); inversion H; subst; reflexivity|inversion H; subst; reflexivity].
+    + destruct (ch =? 0); [destruct (take w (l_ack (get_link y slot))); inversion H; subst; reflexivity|inversion H; subst; reflexivity].
+Qed.
+
+Theorem erun_grun script : forall y gs y' gs',
+  single_session script = true -> erun y gs script = Ok (y', gs') ->
+  grun (y_cfg y) (mkG (y_server y) gs) (proj_script y script) = Ok (mkG (y_server y') gs').
+Proof.
+  induction script as [|st t IH]; intros y gs y' gs' Hss H; cbn [erun proj_script] in *.
+  - inversion H; subst. reflexivity.
+  - unfold single_session in Hss. cbn [forallb] in Hss. apply andb_prop in Hss. destruct Hss as [Hs1 Hs2].
+    destruct (sys_step y st) as [[y1 o]| |] eqn:E; cbn [bind] in H; try discriminate.
+    rewrite grun_app, (step_grun y gs st y1 o Hs1 E). cbn [bind]. rewrite <- (sys_step_cfg y st y1 o E).
+    exact (IH y1 _ y' gs' Hs2 H).
+Qed.
+
+(* from the initial state: the ghost of a whole-system run is the `g_sent` of the `grun` of its projection *)
+Corollary erun_grun_init cfg0 nclients script y gs :
+  single_session script = true -> erun (sys_init cfg0 nclients) [] script = Ok (y, gs) ->
+  grun cfg0 ginit (proj_script (sys_init cfg0 nclients) script) = Ok (mkG (y_server y) gs).
+Proof. intros Hss H. exact (erun_grun script (sys_init cfg0 nclients) [] y gs Hss H). Qed.
